@@ -284,7 +284,7 @@ class Interp:
                 return z3.BoolVal(False)
             return a.z == b.z
         if isinstance(a, VObj) and isinstance(b, VObj):
-            return z3.BoolVal(a is b)
+            return z3.BoolVal(a is b or a.oid == b.oid)     # a snapshot (old(...)) of an object is that object
         if isinstance(a, VDict) and isinstance(b, VDict):
             if set(a.d) != set(b.d):
                 return z3.BoolVal(False)
@@ -324,6 +324,8 @@ class Interp:
             return z3.And(J.is_jbool(a.z), J.b(a.z) == b.z)
         if isinstance(a, VOpaque) and isinstance(b, VOpaque):
             return self.eq(a, b)
+        if isinstance(a, VObj) and isinstance(b, VObj):
+            return z3.BoolVal(a is b or a.oid == b.oid)
         if isinstance(a, VObj) or isinstance(b, VObj):
             return z3.BoolVal(a is b)
         return self.eq(a, b)
@@ -747,6 +749,16 @@ class Interp:
 
     def havoc_target(self, tg, fr):
         kind = tg[0]
+        if kind == "local" and len(tg) > 2:
+            # ("local", name, f1, ..., fn): a field reached from a local object (through optionals)
+            o = fr.lookup(tg[1])
+            for p in tg[2:-1]:
+                o = o.inner if isinstance(o, VOpt) else o
+                o = o.fields.get(p) if isinstance(o, VObj) else None
+            o = o.inner if isinstance(o, VOpt) else o
+            if isinstance(o, VObj) and o.fields.get(tg[-1]) is not None:
+                o.fields[tg[-1]] = self.fresh_like(o.fields[tg[-1]], tg[-1])
+            return
         if kind == "local":
             cur = fr.lookup(tg[1])
             if cur is None:
@@ -768,6 +780,8 @@ class Interp:
             path = tg[1:]
             for p in path[:-1]:
                 o = o.fields.get(p)
+                if isinstance(o, VOpt):
+                    o = o.inner          # a field of an optional object: havocked for the non-None case
                 if not isinstance(o, VObj):
                     return
             cur = o.fields.get(path[-1])
@@ -1039,6 +1053,14 @@ class Interp:
         if not parts:
             return VStr("")
         return VStr(parts[0] if len(parts) == 1 else z3.Concat(*parts), "str")
+
+    def e_Yield(self, e, fr):
+        """`yield X` inside an @inlineCallbacks generator: the meaning (deferred-result contracts, havoc of
+        unstable fields while suspended) is supplied by the property module as reg.yield_model(it, node, fr)"""
+        h = getattr(self.reg, "yield_model", None)
+        if h is None:
+            raise OutOfSubset(f"yield at line {getattr(e, 'lineno', '?')} (no yield model registered)")
+        return h(self, e, fr)
 
     def e_Lambda(self, e, fr):
         fd = source.FuncDef(fr.module, "<lambda>", e, None, ast.unparse(e))
